@@ -84,6 +84,19 @@ pub fn shapes(tier: Tier) -> Vec<Shape> {
             }
         }
     }
+    // a large bucket (several levels, dozens of leaves), committed and with whole stretches deleted
+    // in the open transaction; seeks for every key and gap, ranges from a spread of bounds
+    {
+        let n = if tier == Tier::Quick { 400 } else { 1500 };
+        let mut ops = vec![OpSpec::bucket("create", &[], "b")];
+        for i in 0..n {
+            ops.push(OpSpec::put(&["b"], &format!("s{:05}", 2 * i + 1), if i % 7 == 0 { "w*120" } else { "v*24" }));
+        }
+        let setup = vec![tx(ops), Action::Reopen];
+        out.push(Shape { name: format!("large-n{}-committed", n), cfg: d.clone(), setup: setup.clone(), mid: vec![], full: false });
+        let mid: Vec<OpSpec> = (0..n).filter(|i| (i / 37) % 3 == 1 || *i < 20).map(|i| OpSpec::del(&["b"], &format!("s{:05}", 2 * i + 1))).collect();
+        out.push(Shape { name: format!("large-n{}-midtx-stretches-deleted", n), cfg: d.clone(), setup, mid, full: false });
+    }
     // every deletion subset of the two-level base, left uncommitted in an open write transaction
     // (this is where emptied leaves sit in the middle of the tree) and committed
     for b in SUBSET_BASES.iter().filter(|b| b.n == 6 || (tier == Tier::Thorough && (b.n == 9 || b.n == 12))) {
